@@ -46,11 +46,12 @@ GOENV = {
 # --------------------------------------------------------------------------- check table
 # run: test = -test.run regexp; n = rapid.checks per tier (total over shards); shards per tier;
 #      steps = rapid.steps; variant = build variant; timeout in seconds per shard.
-def R(test, quick, thorough, shards=(8, 16), steps=None, timeout=(900, 6000), extra=None, norapid=False, env=None, fuzz=None, tiers=("quick", "thorough"), variant=None):
+def R(test, quick, thorough, shards=(8, 16), steps=None, timeout=(900, 6000), extra=None, norapid=False, env=None, fuzz=None, tiers=("quick", "thorough"), variant=None, rounds=None):
     """fuzz = seconds of native 'go test -fuzz' (coverage guided, all cores); such an entry only runs in the tiers listed."""
     return dict(test=test, n=dict(quick=quick, thorough=thorough), shards=dict(quick=shards[0], thorough=shards[1]),
                 steps=steps, timeout=dict(quick=timeout[0], thorough=timeout[1]), extra=extra or [], norapid=norapid, env=env or {}, fuzz=fuzz, tiers=tiers,
-                variant=variant)  # variant: build variant of this run if it differs from the check's
+                variant=variant,  # variant: build variant of this run if it differs from the check's
+                rounds=dict(quick=(rounds or (1, 1))[0], thorough=(rounds or (1, 1))[1]))  # the case count is per round
 
 
 CHECKS = {}
@@ -237,7 +238,7 @@ check("C13", "concurrent use of one server is free of data races", "exploration"
       "Any report of the detector is a violation; its signature is the unordered pair of top olareg frames with access kinds.",
       "Trusted: the Go race detector (reports only races on executed, concurrently scheduled accesses); this is fuzzing of schedules, not a proof of race freedom.",
       "DESIGN.md §3 C13",
-      [R("^TestC13$", 6000, 40000, shards=(8, 16), timeout=(1800, 9000))], variant="race")
+      [R("^TestC13$", 6000, 12000, shards=(8, 16), timeout=(1800, 6000), rounds=(1, 3))], variant="race")
 
 check("C12", "no schedule can hang the registry", "exploration",
       "rapid generator of concurrent programs on a vsync-instrumented build with injected delays after lock acquisitions; oracle = wait-for-graph cycle / stall monitor, cancellation and Close/Shutdown bounds",
@@ -417,12 +418,12 @@ def run_shards(binp, work, pid, tier, run, seed, known_open, variant):
     per = max(1, total // nshards)
     procs = []
     for i in range(nshards):
-        name = "%s-%d" % (re.sub(r"\W", "", run["test"]), i)
+        name = "%s-%d" % (re.sub(r"\W", "", run["test"]) + ("r%d" % run["salt"] if run.get("salt") else ""), i)
         cwd = os.path.join(work, "run", name)
         out = os.path.join(work, "out", name)
         os.makedirs(cwd, exist_ok=True)
         os.makedirs(out, exist_ok=True)
-        sseed = (seed * 1000003 + i * 7919 + 1) % (2**62) or 1
+        sseed = (seed * 1000003 + i * 7919 + run.get("salt", 0) * 104729 + 1) % (2**62) or 1
         cmd = [binp, "-test.run", run["test"], "-test.timeout", "%ds" % run["timeout"][tier], "-test.count", "1"]
         if run.get("fuzz"):
             # coverage guidance needs a binary built with the fuzzer's instrumentation (what 'go test -fuzz' adds itself)
@@ -640,7 +641,9 @@ def cmd_check(pid, tier):
                 bins = {c["variant"]: (binp, work)}
                 all_stats, violations, known_hits, infra = [], [], [], []
                 notes = []
-                for run in c["runs"]:
+                # a run may be split into rounds (fresh processes with other seeds: long-lived -race processes slow down)
+                expanded = [dict(run, salt=rd) for run in c["runs"] for rd in range((run.get("rounds") or {}).get(tier, 1))]
+                for run in expanded:
                     if tier not in run.get("tiers", ("quick", "thorough")):
                         continue
                     rv = run.get("variant") or c["variant"]
